@@ -290,12 +290,10 @@ func c08filter(c *Ctx, fn *ssa.Function) {
 	key := fkey(fn)
 	allowed := []string{"IsDaemonSetPod", "IsEmpty", "isNodeMetricExpired", "EstimateNode", "NodeMetric", "GetNodeMetricAndEstimatedOfExisting", "== nil", "!= nil", "len("}
 	n := 0
-	for _, b := range fn.Blocks {
-		ret, ok := b.Instrs[len(b.Instrs)-1].(*ssa.Return)
-		if !ok {
-			continue
-		}
-		v := ret.Results[0]
+	for _, alt := range an.ReturnAlts(fn) {
+		ret := alt.Ret
+		_ = ret
+		v := alt.Results[0]
 		if call, _ := an.ResultOfCall(v); call != nil {
 			if sn := an.ShortCallee(&call.Call); sn == "filterNodeUsage" || sn == "NewStatus" || sn == "AsStatus" {
 				continue
@@ -322,7 +320,7 @@ func c08filter(c *Ctx, fn *ssa.Function) {
 				continue
 			}
 		}
-		gs := an.Guards(ret)
+		gs := alt.Guards
 		exempt := ""
 		for _, g := range gs {
 			p := an.Path(g.Cond)
